@@ -80,10 +80,15 @@ def build_graph(case):
         root = holder
     if case.get("warm"):
         Vertex.NEIGHBOR_CACHING = True
+        unpicklable = PS.LockedFilter()
         for o in w.objs:
             if H.kind_of(o) in H.VERTEX_KINDS:
                 try:
                     helpers.neighbors(o, direction_sensitive=helpers.DIR_SENS_ANY, unknown_handling=helpers.LNK_UNKNOWN_NEIGHBOR)
+                    if case.get("warm") == "unpicklable":
+                        # a query with a filter callable that cannot be pickled: it ends up as a key of the vertex's private memo
+                        helpers.neighbors(o, direction_sensitive=helpers.DIR_SENS_FORWARD, unknown_handling=helpers.LNK_UNKNOWN_NEIGHBOR,
+                                          filterfunc=unpicklable)
                     if case.get("warm") == "filtered":
                         # memo entries keyed by a callable (picklable by reference) on every vertex
                         helpers.neighbors(o, direction_sensitive=helpers.DIR_SENS_FORWARD, unknown_handling=helpers.LNK_UNKNOWN_NEIGHBOR,
@@ -148,7 +153,7 @@ class RoundTrip(Leg):
                 ops = [([op[0], 3] + op[2:]) if op[0] == "NV" and len(op) == 4 and rng.random() < 0.7 else op for op in ops]
             yield {"ops": ops, "u": u, "root": rng.choice(["universe", "universe", "vertex", "link", "closure"]), "main_root": main_root,
                    "closures": rng.random() < 0.3,
-                   "proto": rng.choice([0, 1, 2, 3, 4, 5, None]), "warm": rng.choice([False, True, "filtered", "filtered"]),
+                   "proto": rng.choice([0, 1, 2, 3, 4, 5, None]), "warm": rng.choice([False, True, "filtered", "filtered", "unpicklable"]),
                    "cache_dump": rng.random() < 0.5, "cache_load": rng.random() < 0.6, "big": rng.random() < 0.2,
                    "fresh": i % 4 == 0}
 
